@@ -146,16 +146,42 @@ def key_arg(key):
 # the shared oracle: every view of one result
 
 
+LAYOUTS = ["C", "F", "swap01", "swap12", "strided", "negative"]
+
+
+def relayout(a, layout):
+    """Same logical (reps, inst, qubits) digits, different memory layout (never changes a.shape / a.dtype)."""
+    if layout == "C":
+        return a
+    if layout == "F":
+        out = np.asfortranarray(a)
+    elif layout == "swap01":  # what the simulators return for repeated terminal keys: (inst, reps, q) buffer, swapaxes view
+        out = np.ascontiguousarray(a.swapaxes(0, 1)).swapaxes(0, 1)
+    elif layout == "swap12":  # assembled from per-qubit columns
+        out = np.ascontiguousarray(a.swapaxes(1, 2)).swapaxes(1, 2)
+    elif layout == "strided":  # a window into a larger buffer
+        big = np.ones((2 * a.shape[0] + 1, a.shape[1] + 1, 2 * a.shape[2] + 1), dtype=a.dtype)
+        out = big[1::2, 1:, 1::2]
+        out[...] = a
+    elif layout == "negative":  # reversed views of a reversed copy
+        out = np.ascontiguousarray(a[::-1, :, ::-1])[::-1, :, ::-1]
+    else:
+        raise core.HarnessError(layout)
+    if out.shape != a.shape or out.dtype != a.dtype or not np.array_equal(out, a):
+        raise core.HarnessError(f"relayout {layout} changed the array")
+    return out
+
+
 def build_result(keys, arrs, ctor, params):
     if ctor == "records":
         return cirq.ResultDict(params=params, records={k: a for k, a in zip(keys, arrs)})
     if ctor == "measurements":
-        return cirq.ResultDict(params=params, measurements={k: a.reshape(a.shape[0], a.shape[2]) for k, a in zip(keys, arrs)})
+        return cirq.ResultDict(params=params, measurements={k: a[:, 0, :] for k, a in zip(keys, arrs)})
     if ctor == "engine":
         return cirq_google.EngineResult(job_id="job-7", params=params, records={k: a for k, a in zip(keys, arrs)})
     if ctor == "engine_from_result":
         if all(a.shape[1] == 1 for a in arrs):
-            inner = cirq.ResultDict(params=params, measurements={k: a.reshape(a.shape[0], a.shape[2]) for k, a in zip(keys, arrs)})
+            inner = cirq.ResultDict(params=params, measurements={k: a[:, 0, :] for k, a in zip(keys, arrs)})
         else:
             inner = cirq.ResultDict(params=params, records={k: a for k, a in zip(keys, arrs)})
         return cirq_google.EngineResult.from_result(inner, job_id="job-7")
@@ -192,6 +218,32 @@ def check_frame(df, keys, tensors, shapes, reps, what):
     return None
 
 
+def check_state_histogram(r, keys, tensors, shapes, reps, what):
+    """cirq.vis.get_state_histogram: index = all measured bits of a repetition, keys in the result's own key order
+    (the order of result.measurements), qubits in measured order, read as one big-endian integer."""
+    order = list(r.measurements.keys())
+    if sorted(order) != sorted(keys):
+        return f"{what}: measurements keys {order}"
+    pos = {k: i for i, k in enumerate(keys)}
+    total = sum(q for _, q in shapes)
+    if total > 14:
+        return None
+    want = [0] * (2 ** total)
+    for rr in range(reps):
+        bits = []
+        for k in order:
+            bits.extend(tensors[pos[k]][rr][0])
+        want[ref_be(bits)] += 1
+    got = cirq.get_state_histogram(r)
+    got_l = [float(x) for x in np.asarray(got).tolist()]
+    if len(got_l) != len(want) or any(g != w for g, w in zip(got_l, want)):
+        nz = {i: g for i, g in enumerate(got_l) if g}
+        wz = {i: w for i, w in enumerate(want) if w}
+        return (f"{what}: get_state_histogram counts {nz} (state index -> count), expected {wz} "
+                f"(keys concatenated in the result's key order {order}, big-endian)")
+    return None
+
+
 def parse_str(s):
     """'key=0101, 11' lines -> list of (key, [digit-string per qubit])."""
     out = []
@@ -224,8 +276,75 @@ def check_str(r, keys, tensors, shapes, reps, what):
     return None
 
 
-def check_views(keys, tensors, shapes, reps, dt_i, ctor, base=2, params=None, fold_bases=None, heavy=True):
-    """Compare every view of one result with the nested-list reference.  Returns None or a message."""
+def check_layout(keys, tensors, shapes, reps, dt_i, ctor, layout, base=2, params=None):
+    """The views that touch the raw buffers (records, flattened views, ==, repr, JSON, bit packing) for a result
+    whose arrays have a non-C memory layout."""
+    dt = DTYPES[dt_i]
+    carrs = [np.array(t, dtype=dt).reshape((reps, inst, q)) for t, (inst, q) in zip(tensors, shapes)]
+    arrs = [relayout(a, layout) for a in carrs]
+    flattenable = all(inst == 1 for inst, _ in shapes)
+    if params is None:
+        params = cirq.ParamResolver({})
+    desc = (f"{ctor}(dtype={DTNAMES[dt_i]}, memory layout {layout!r}, " + ", ".join(f"{k!r}:{t}" for k, t in zip(keys, tensors))
+            + f", shapes={shapes}, reps={reps})")
+    r = build_result(keys, arrs, ctor, params)
+    m = check_records(r, keys, tensors, shapes, reps, desc)
+    if m:
+        return m
+    if not (r == build_result(keys, carrs, ctor, params)):
+        return f"{desc}: not == the same result built from C-ordered arrays"
+    if flattenable:
+        for k, t in zip(keys, tensors):
+            mm = nested(r.measurements[k])
+            if mm != [row[0] for row in t]:
+                return f"{desc}: measurements[{k!r}]={mm}"
+        if base == 2:
+            m = check_frame(r.data, keys, tensors, shapes, reps, desc + " .data")
+            if m:
+                return m
+            for k, t in zip(keys, tensors):
+                h = r.histogram(key=k)
+                want = collections.Counter(ref_be(row[0]) for row in t)
+                if h != want:
+                    return f"{desc}: histogram(key={k!r})={dict(h)} expected {dict(want)}"
+            m = check_state_histogram(r, keys, tensors, shapes, reps, desc)
+            if m:
+                return m
+    m = check_str(r, keys, tensors, shapes, reps, desc)
+    if m:
+        return m
+    r3 = eval(repr(r), dict(EVAL_NS))
+    m = check_records(r3, keys, tensors, shapes, reps, desc + " eval(repr)")
+    if m:
+        return m
+    r4 = cirq.read_json(json_text=cirq.to_json(r))
+    m = check_records(r4, keys, tensors, shapes, reps, desc + " JSON round trip")
+    if m:
+        return m
+    if not (r4 == r):
+        return f"{desc}: JSON round trip gives a different result"
+    for a, t in zip(arrs, tensors):
+        views = [a]
+        if a.shape[1] == 1:
+            views.append(a[:, 0, :])
+            views.append(a[:, 0, :].T)
+        for v in views:
+            for mode in (("auto", "never", "force") if base == 2 else ("auto", "never")):
+                packed, binary = _pack_digits(v, pack_bits=mode)
+                u = _unpack_digits(packed, binary, v.dtype.name, v.shape)
+                if u.shape != v.shape or nested(u) != nested(v):
+                    return (f"{desc}: _unpack_digits(_pack_digits(x, {mode!r})) = {nested(u)}, x = {nested(v)} "
+                            f"(x.shape={v.shape}, x.strides={v.strides})")
+    return None
+
+
+def check_views(keys, tensors, shapes, reps, dt_i, ctor, base=2, params=None, fold_bases=None, heavy=True, layouts=()):
+    """Compare every view of one result with the nested-list reference.  Returns None or a message.
+    `layouts`: additional non-C memory layouts of the same digits to push through the buffer-touching views."""
+    for layout in layouts:
+        m = check_layout(keys, tensors, shapes, reps, dt_i, ctor, layout, base=base, params=params)
+        if m:
+            return m
     dt = DTYPES[dt_i]
     arrs = [np.array(t, dtype=dt).reshape((reps, inst, q)) for t, (inst, q) in zip(tensors, shapes)]
     flattenable = all(inst == 1 for inst, _ in shapes)
@@ -288,8 +407,11 @@ def check_views(keys, tensors, shapes, reps, dt_i, ctor, base=2, params=None, fo
         elif sorted(df.columns) != sorted(keys) or len(df) != reps:
             return f"{desc}: data frame shape/columns wrong: {df!r}"
     if flattenable and base == 2:
-        df2 = cirq.Result.dataframe_from_measurements({k: a.reshape(reps, a.shape[2]) for k, a in zip(keys, arrs)})
+        df2 = cirq.Result.dataframe_from_measurements({k: a[:, 0, :] for k, a in zip(keys, arrs)})
         m = check_frame(df2, keys, tensors, shapes, reps, desc + " dataframe_from_measurements")
+        if m:
+            return m
+        m = check_state_histogram(r, keys, tensors, shapes, reps, desc)
         if m:
             return m
 
@@ -639,7 +761,13 @@ def run_single(case):
             if rot and ctor.startswith("engine") and (ctor == "engine") != ((code // ndt) % 2 == 0):
                 continue
             fold_bases = [3, [3, 4, 3]] if base == 3 else None
-            m = check_views((key,), [t], [(inst, q)], reps, dt_i, ctor, base=base, fold_bases=fold_bases)
+            if cells <= 1:
+                layouts = ()
+            elif rot:
+                layouts = (LAYOUTS[1 + (code // ndt + dt_i + CTORS.index(ctor)) % 5],)
+            else:
+                layouts = ("F", "swap01", LAYOUTS[3 + (code + dt_i) % 3])
+            m = check_views((key,), [t], [(inst, q)], reps, dt_i, ctor, base=base, fold_bases=fold_bases, layouts=layouts)
             n += 1
             if m:
                 return bad(m, kind="views", ctor=ctor, dtype=DTNAMES[dt_i])
@@ -697,7 +825,8 @@ def run_multi(case):
     params = cirq.ParamResolver({"t": 0.5}) if (code // 8) % 2 else None
     n = 0
     for ctor in ctors:
-        m = check_views(keys, tensors, shapes, reps, dt_i, ctor, params=params, heavy=False)
+        layouts = (LAYOUTS[1 + (code // 16 + n) % 5],) if reps else ()
+        m = check_views(keys, tensors, shapes, reps, dt_i, ctor, params=params, heavy=False, layouts=layouts)
         n += 1
         if m:
             return bad(m, kind="views_multi", ctor=ctor, dtype=DTNAMES[dt_i])
@@ -789,7 +918,8 @@ def run_wide(case):
             if rot and ci != (sel // ndt) % 3:
                 continue
             m = check_views(tuple(keys), tensors, shapes, reps, dt_i, ctor, base=base,
-                            fold_bases=[3] if base == 3 else None, heavy=False)
+                            fold_bases=[3] if base == 3 else None, heavy=False,
+                            layouts=(LAYOUTS[1 + (cnt + len(rows) + (rows[0][1] if rows else 0)) % 5],) if reps else ())
             cnt += 1
             if m:
                 return bad(m[:3500], kind="views_wide", ctor=ctor, dtype=DTNAMES[dt_i], width=n)
@@ -1372,6 +1502,17 @@ def sim_circuits():
          lambda p: {"q3": [[1, 2]], "d": [[2]]}, True),
         (cirq.Circuit(cirq.X(q2), cirq.measure(q0, q1, q2, key="x"), cirq.measure(q2, key="y"), cirq.X(q2), cirq.X(q0) ** T_SYM, cirq.measure(q2, q0, key="y")),
          [("x", 1, 3), ("y", 2, 1)], None, False),  # inconsistent widths for repeated key: documented rejection
+        # all measurements terminal (the simulators' sample-everything-at-once path), keys repeated with different
+        # values per instance, asymmetric in every axis
+        (cirq.Circuit(cirq.X(q0), cirq.X(QS[3]),
+                      cirq.Moment(cirq.measure(q0, q1, key="m"), cirq.measure(q2, QS[3], key="m")),
+                      cirq.Moment(cirq.measure(QS[3], q0, key="m"), cirq.measure(q1, key="single"))),
+         [("m", 3, 2), ("single", 1, 1)], lambda p: {"m": [[1, 0], [0, 1], [1, 1]], "single": [[0]]}, False),
+        (cirq.Circuit(cirq.X(q1) ** T_SYM, cirq.X(q2),
+                      cirq.Moment(cirq.measure(q0, key="r"), cirq.measure(q2, q1, key="y")),
+                      cirq.Moment(cirq.measure(q1, key="r")), cirq.Moment(cirq.measure(q2, key="r")),
+                      cirq.Moment(cirq.measure(q0, q1, key="y"))),
+         [("r", 3, 1), ("y", 2, 2)], lambda p: {"r": [[0], [int(p["t"])], [1]], "y": [[1, int(p["t"])], [0, int(p["t"])]]}, False),
     ]
 
 
@@ -1458,6 +1599,21 @@ def run_sim(case):
         m = check_one(res, p, what + " [run_async]")
         if m:
             return bad(m, kind="sim_run", sim=SIM_NAMES[sim_i])
+        if reps >= 1:
+            back = cirq.read_json(json_text=cirq.to_json(res))
+            m = check_one(back, p, what + " [JSON round trip of the sampler's result]")
+            if m:
+                return bad(m, kind="sim_run_json", sim=SIM_NAMES[sim_i])
+        if reps >= 2:
+            # one run of n repetitions tells the same story as n runs of one repetition, concatenated
+            total = None
+            for _ in range(reps):
+                one = sampler.run(circ, p, 1)
+                total = one if total is None else total + one
+            for k in res.records:
+                if nested(res.records[k]) != nested(total.records[k]):
+                    return bad(f"{what}: records[{k!r}]={nested(res.records[k])} but {reps} runs with repetitions=1 give {nested(total.records[k])}",
+                               kind="sim_run_vs_single", sim=SIM_NAMES[sim_i])
         return good(nontrivial=reps >= 2)
     if entry == "run_sweep":
         for label, out in (("", sampler.run_sweep(circ, sweepable, reps)), (" [run_sweep_async]", duet.run(sampler.run_sweep_async, circ, sweepable, reps))):
@@ -1540,9 +1696,9 @@ def run_sim(case):
 def sim_cases():
     cases = []
     for sim_i in range(5):
-        for ci in range(5):
+        for ci in range(7):
             for sw_i in range(3):
-                for reps in (0, 1, 2, 3):
+                for reps in (0, 1, 2, 3, 5):
                     for entry in ("run", "run_sweep", "sample"):
                         cases.append((sim_i, entry, ci, sw_i, reps))
                     if ci < 3:
@@ -1612,6 +1768,85 @@ def sim_misc_cases():
 # ---------------------------------------------------------------------------------------------
 
 
+# --- state histogram over key orders -------------------------------------------------------------
+
+SH_KEYS = (("z", 2), ("a", 1), ("m", 3))
+
+
+def state_hist_cases():
+    cases = []
+    perms = list(itertools.permutations(range(3)))
+    for pi in range(len(perms)):
+        for nk in (2, 3):
+            for reps in (1, 2, 3):
+                for pat in range(6):
+                    cases.append(("named", pi, nk, reps, pat, 1 if (pat == 0 and reps == 2) else 0))
+    for nq in (11, 12):
+        for reps in (1, 3):
+            for pat in range(4):
+                cases.append(("qubits", nq, 0, reps, pat, 1 if (pat == 0 and reps == 1 and nq == 11) else 0))
+    return cases
+
+
+def run_state_hist(case):
+    kind, a, nk, reps, pat, plot = case
+    if kind == "named":
+        order = list(itertools.permutations(range(3)))[a][:nk]
+        ks = [SH_KEYS[i] for i in order]
+    else:
+        ks = [(f"q({i})", 1) for i in range(a)]  # default per-qubit keys: 'q(10)' sorts before 'q(2)'
+    keys = tuple(k for k, _ in ks)
+    shapes = [(1, w) for _, w in ks]
+    tensors = []
+    for ki, (k, w) in enumerate(ks):
+        # asymmetric data: bit b of key number ki in repetition rr
+        tensors.append([[[((rr + 1) * (ki + 2) * (b + 3) + pat * (ki + b + 1) + (ki * ki + b) // 2) % 2 for b in range(w)]] for rr in range(reps)])
+    n = 0
+    for dt_i in range(4):
+        for ctor in ("records", "measurements", "engine"):
+            arrs = [np.array(t, dtype=DTYPES[dt_i]).reshape((reps, 1, q)) for t, (_, q) in zip(tensors, shapes)]
+            r = build_result(keys, arrs, ctor, cirq.ParamResolver({}))
+            desc = f"{ctor}(dtype={DTNAMES[dt_i]}, " + ", ".join(f"{k!r}:{t}" for k, t in zip(keys, tensors)) + f", reps={reps})"
+            m = check_state_histogram(r, keys, tensors, shapes, reps, desc)
+            n += 1
+            if m:
+                return bad(m, kind="state_histogram")
+            # agrees with the other flattened views of the same result
+            order = list(r.measurements.keys())
+            mm = r.multi_measurement_histogram(keys=order)
+            widths = [np.asarray(r.measurements[k]).shape[1] for k in order]
+            got = cirq.get_state_histogram(r)
+            for ints, cnt in mm.items():
+                idx = 0
+                for v, w in zip(ints, widths):
+                    idx = (idx << w) | int(v)
+                if got[idx] != cnt:
+                    return bad(f"{desc}: get_state_histogram[{idx}]={got[idx]} but multi_measurement_histogram(keys={order}) counts {ints} x {cnt}", kind="state_histogram")
+    if plot:
+        try:
+            import matplotlib
+            matplotlib.use("Agg")
+            import matplotlib.pyplot as plt
+        except Exception:  # headless plotting unavailable: the data view above is what the property is about
+            return good(nontrivial=len(keys) >= 2, results_checked=n)
+        arrs = [np.array(t, dtype=np.uint8).reshape((reps, 1, q)) for t, (_, q) in zip(tensors, shapes)]
+        r = build_result(keys, arrs, "records", cirq.ParamResolver({}))
+        fig, ax = plt.subplots(1, 1)
+        try:
+            ax2 = cirq.plot_state_histogram(r, ax)
+            heights = [float(pch.get_height()) for pch in ax2.patches]
+        finally:
+            plt.close(fig)
+        want = [float(x) for x in cirq.get_state_histogram(r)]
+        m = check_state_histogram(r, keys, tensors, shapes, reps, "plot_state_histogram input")
+        if m:
+            return bad(m, kind="state_histogram")
+        if heights != want:
+            nz = {i: h for i, h in enumerate(heights) if h}
+            return bad(f"plot_state_histogram(result with keys {keys}) bar heights {nz} differ from the state histogram", kind="state_histogram_plot")
+    return good(nontrivial=len(keys) >= 2, results_checked=n)
+
+
 def describe_single(case):
     reps, inst, q, base, code = case[:5]
     return {"shape": [reps, inst, q], "digits": tensor_from_flat(decode(code, reps * inst * q, base), reps, inst, q)}
@@ -1626,6 +1861,7 @@ def stages(tier, seed):
         CaseStage("result_views_one_key_qutrits", single_cases(tier, 3), run_single, describe=describe_single),
         CaseStage("result_views_two_three_keys", multi_cases(tier), run_multi),
         CaseStage("result_views_wide_rows", wide_cases(tier), run_wide),
+        CaseStage("state_histogram_key_orders", state_hist_cases(), run_state_hist),
         CaseStage("result_pairs_eq_add", pair_cases(tier), run_pairs),
         CaseStage("result_pairs_structural", pair_struct_cases(), run_pair_struct),
         CaseStage("sampler_entry_points", sampler_entry_cases(), run_sampler_entry, reset=_init_samplers),
